@@ -31,6 +31,9 @@ pub struct C06Case {
     pub graph: Graph,
     pub prebuilt: bool,
     pub steps: Vec<WStep>,
+    /// async-std runtime threads of the watching zinoma (0 = default).
+    #[serde(default)]
+    pub runtime_threads: u8,
 }
 
 pub fn c06_case() -> impl Strategy<Value = C06Case> {
@@ -40,7 +43,7 @@ pub fn c06_case() -> impl Strategy<Value = C06Case> {
         1 => prop::collection::vec(any::<u8>(), 2..=4).prop_map(WStep::Burst),
         3 => any::<u8>().prop_map(WStep::QuickFollowUp),
     ];
-    (raw_graph(4), any::<bool>(), prop::collection::vec(step, 0..=4)).prop_map(|(raw, prebuilt, steps)| {
+    (raw_graph(4), any::<bool>(), prop::collection::vec(step, 0..=4), prop::sample::select(vec![0u8, 0, 0, 1, 1, 2, 4])).prop_map(|(raw, prebuilt, steps, runtime_threads)| {
         let mut graph = build_graph(&raw);
         graph.nproj = 1;
         graph.root_named = false;
@@ -54,7 +57,7 @@ pub fn c06_case() -> impl Strategy<Value = C06Case> {
             t.deps = vec![];
             t.outdeps = e;
         }
-        C06Case { graph, prebuilt, steps }
+        C06Case { graph, prebuilt, steps, runtime_threads }
     })
 }
 
@@ -145,6 +148,7 @@ fn wait_quiescent(z: &mut ZProc, sb: &Sandbox, budget: Duration) -> Result<(), S
 pub fn eval_c06(case: &C06Case, exclude_after_read: bool) -> CaseResult {
     let g = &case.graph;
     let n = g.n();
+    set_runtime_threads(case.runtime_threads);
     let sb = Sandbox::new("c06");
     let dir = write_c06_project(&sb, g);
     let sinks: Vec<usize> = (0..n).filter(|&i| dependents(g, i).is_empty()).collect();
